@@ -77,7 +77,17 @@ impl Updater<'_> {
 
     let mut uncommitted = 0;
     let mut utxo_cache = HashMap::new();
+    let mut previous_block_hash = None;
     while let Ok(block) = rx.recv() {
+      // `detect_reorg` compares against committed blocks only, so also check
+      // that each block builds on the one indexed before it
+      if previous_block_hash.is_some_and(|hash| hash != block.header.prev_blockhash) {
+        return Err(anyhow!(reorg::Error::Uncommitted {
+          height: self.height
+        }));
+      }
+      previous_block_hash = Some(block.header.block_hash());
+
       #[cfg(feature = "verif")]
       crate::verif::point("block.received", self.height.into())?;
 
